@@ -25,6 +25,7 @@ func genC01(t *rapid.T) C01Case {
 	cfg := kit.DefaultTreeGen()
 	cfg.CorruptPct = 7
 	cfg.MalleatePct = 10
+	cfg.ExtraCorruptions = []string{"timestamp-future"}
 	tc := kit.GenTree(t, cfg)
 	return C01Case{Tree: tc, Steps: kit.GenSchedule(t, len(tc.Blocks), 30), Backend: rapid.IntRange(0, 2).Draw(t, "backend")}
 }
